@@ -305,6 +305,50 @@ def pv_roles(prog: Program, pv: FuncInfo, cfg: CFG) -> tuple[str, str]:
 
 
 # ---------------------------------------------------------------------------------------------
+def iteration_path_with_only(cfg: CFG, first: int, header: int, with_nodes: list[int], without_nodes: list[int],
+                             flags: set[str]) -> list[tuple[int, str]] | None:
+    """A path through ONE iteration of the loop (from its first body node back to the header or to the
+    function's normal exit) that passes a `with_nodes` statement but no `without_nodes` statement and
+    is consistent with the boolean flags assigned along it; None if there is none."""
+    avoid = set(without_nodes)
+    w = set(with_nodes)
+    if first in avoid:
+        return None
+    start = (first, (), first in w)
+    prev: dict[tuple, tuple[tuple, str]] = {}
+    seen = {start}
+    queue = [start]
+    qi = 0
+    while qi < len(queue):
+        cur = queue[qi]
+        qi += 1
+        n, st, hit = cur
+        for m, lab in cfg.succ[n]:
+            if m in avoid or not cfg._flag_edge_ok(n, lab, st, flags):
+                continue
+            st2 = st if lab.startswith("exc:") else cfg._flag_after(n, st, flags)
+            if m in (header, cfg.exit):
+                if hit:
+                    out = [(m, lab)]
+                    c = cur
+                    while c != start:
+                        pc, plab = prev[c]
+                        out.append((c[0], plab))
+                        c = pc
+                    out.append((first, ""))
+                    return list(reversed(out))
+                continue
+            if m == cfg.raise_exit:
+                continue
+            nxt = (m, st2, hit or m in w)
+            if nxt in seen:
+                continue
+            seen.add(nxt)
+            prev[nxt] = (cur, lab)
+            queue.append(nxt)
+    return None
+
+
 def result_loop(cfg: CFG, qual: str) -> tuple[int, Any, str, str, set[int]]:
     """(result() node, loop header, key variable, text of the iterated task map, loop body nodes)."""
     res_nodes = nodes_with_call(cfg, _is_result_call)
@@ -327,6 +371,54 @@ def result_loop(cfg: CFG, qual: str) -> tuple[int, Any, str, str, set[int]]:
     return r, h, key, tasks_map, body
 
 
+def _cancel_excluded(cfg: CFG, first: int, r: int) -> bool:
+    """Every path of the iteration to the result() node passes the `not cancelled` outcome of a test of
+    `<task>.cancelled()` on the very task whose result is read."""
+    from ..engine.util import canon
+
+    recv = u(node_calls(cfg, r, _is_result_call)[0].func.value)  # type: ignore[attr-defined]
+    probe = ("truthy", f"{recv}.cancelled()")
+
+    def edge_ok(a: int, _b: int, lab: str) -> bool:
+        n = cfg.nodes[a]
+        if n.kind == "test" and n.ast is not None and lab in ("true", "false"):
+            c = canon(n.ast)
+            if (c == probe and lab == "false") or (c == ("not", probe) and lab == "true"):
+                return False
+        return True
+
+    return first != r and cfg.path(first, [r], edge_ok=edge_ok) is None
+
+
+def booking_nodes(cfg: CFG, body: set[int], key_var: str, fp_name: str, fs_name: str
+                  ) -> tuple[list[int], list[int], list[int], set[str]]:
+    """Inside the result loop: (nodes `fp += X[key]` in any spelling, nodes growing the failed set,
+    other writes of the failed power, the maps X)."""
+    te = TermEval()
+    fp_nodes: list[int] = []
+    fs_nodes: list[int] = []
+    stray: list[int] = []
+    allocs: set[str] = set()
+    for x in sorted(body):
+        n = cfg.nodes[x]
+        if n.kind != "stmt" or n.ast is None:
+            continue
+        nd = name_delta(n.ast, te)
+        if nd is not None and nd[0] == fp_name:
+            sa = subscript_atom(nd[1])
+            if sa is not None and sa[1] == key_var:
+                fp_nodes.append(x)
+                allocs.add(sa[0])
+            else:
+                stray.append(x)
+        elif any(u(w) == fp_name for w in node_writes(cfg, x)):
+            stray.append(x)
+        g = set_growth(n.ast)
+        if g is not None and g[0] == fs_name:
+            fs_nodes.append(x)
+    return fp_nodes, fs_nodes, stray, allocs
+
+
 def check_fail(run: Run, prog: Program, roles: BatteryRoles) -> dict[str, dict[str, str]]:
     """Returns, per analysed function, the bindings other rules link to:
     alloc (the map whose entry is booked as failed power), tasks (the iterated task map)."""
@@ -340,27 +432,7 @@ def check_fail(run: Run, prog: Program, roles: BatteryRoles) -> dict[str, dict[s
         r, h, key_var, tasks_map, body = result_loop(cfg, fn.qual)
         # failed-power accumulation and failed-set update inside the loop
         te = TermEval()
-        fp_nodes: list[int] = []
-        fs_nodes: list[int] = []
-        stray: list[int] = []
-        allocs: set[str] = set()
-        for x in sorted(body):
-            n = cfg.nodes[x]
-            if n.kind != "stmt" or n.ast is None:
-                continue
-            nd = name_delta(n.ast, te)
-            if nd is not None and nd[0] == fp_name:
-                sa = subscript_atom(nd[1])
-                if sa is not None and sa[1] == key_var:
-                    fp_nodes.append(x)
-                    allocs.add(sa[0])
-                else:
-                    stray.append(x)
-            elif any(u(w) == fp_name for w in node_writes(cfg, x)):
-                stray.append(x)
-            g = set_growth(n.ast)
-            if g is not None and g[0] == fs_name:
-                fs_nodes.append(x)
+        fp_nodes, fs_nodes, stray, allocs = booking_nodes(cfg, body, key_var, fp_name, fs_name)
         if not fp_nodes or not fs_nodes:
             run.violation("C15.FAIL", fn.qual, "failed bookkeeping",
                           f"no `{fp_name} += <allocation>[{key_var}]` / `{fs_name}` update found in the "
@@ -384,6 +456,11 @@ def check_fail(run: Run, prog: Program, roles: BatteryRoles) -> dict[str, dict[s
                            ("C", "a CancelledError (timed-out call)")):
             tg = [m for m, lab in cfg.succ[r] if lab == f"exc:{kind}"]
             caught = bool(tg) and all(cfg.nodes[m].kind == "handler" for m in tg)
+            if kind == "C" and not caught and _cancel_excluded(cfg, first_body[0], r):
+                # result() is only reached when `<task>.cancelled()` is false: a timed-out (cancelled)
+                # call never gets here; its booking is decided by the pairing rule below
+                run.ok("C15.FAIL", f"{fn.qual}: result() {kind}-kind failures are caught")
+                continue
             run.check(caught, "C15.FAIL", fn.qual, rn.ast,
                       f"{word} from task.result() is not caught by the result loop: the whole "
                       "accounting is abandoned and no result is reported", node=rn.ast, file=fn.file,
@@ -434,6 +511,16 @@ def check_fail(run: Run, prog: Program, roles: BatteryRoles) -> dict[str, dict[s
                   "reachable when task.result() returns normally)", node=rn.ast,
                   file=fn.file, path=cfg.describe_path(wit),
                   instance=f"{fn.qual}: success path skips failed bookkeeping")
+        # 3b. paired booking: within one iteration the failed set grows iff the failed power grows
+        #     (whatever the way of detecting the failure: handler, flag, `task.cancelled()` test ...)
+        for a_nodes, b_nodes, a_what, b_what in ((fs_nodes, fp_nodes, "failed component set", "failed power"),
+                                                 (fp_nodes, fs_nodes, "failed power", "failed component set")):
+            wit = iteration_path_with_only(cfg, first_body[0], h.id, a_nodes, b_nodes, flags)
+            run.check(wit is None, "C15.FAIL", fn.qual, f"{a_what} updated => {b_what} updated",
+                      f"an iteration can update the {a_what} without updating the {b_what}: the set-point of a "
+                      "call booked as failed is not in the failed power (it is reported as succeeded), or vice versa",
+                      node=cfg.nodes[a_nodes[0]].ast, file=fn.file, path=cfg.describe_path(wit),
+                      instance=f"{fn.qual}: {a_what} updated => {b_what} updated in the same iteration")
         # 4. what is added is the allocation of *this* component from the sent allocations
         s = cfg.nodes[fp_nodes[0]].ast
         alloc_name = sorted(allocs)[0]
@@ -725,6 +812,10 @@ CONTROLS = [
      "for inverter_id, power in distribution.distribution.items()\n        }",
      "for inverter_id, power in distribution.distribution.items()\n            if power != 0.0\n        }",
      "C15.ALL"),
+    ("timed-out call booked in the failed set only", "microgrid._power_distributing._component_managers._battery_manager",
+     "            failed = True\n            try:\n",
+     "            if aws.cancelled():\n                failed_batteries.update(battery_ids)\n                continue\n"
+     "            failed = True\n            try:\n", "C15.FAIL"),
     ("succeeded set not reduced by failed", "microgrid._power_distributing._component_managers._battery_manager",
      "succeed_batteries = set(battery_distribution.keys()) - failed_batteries",
      "succeed_batteries = set(battery_distribution.keys())", "C15.SETS"),
